@@ -135,8 +135,10 @@ func ruleReportedRoute(c *Ctx, rule string) {
 		set, get := c.P.MustFunc(pr.set), c.P.MustFunc(pr.get)
 		stored := ""
 		an.AllInstrs(set, func(in ssa.Instruction) {
-			if base, field, val, ok := fieldStoreAny(in); ok && base == "recv" && len(set.Params) == 2 && val == ssa.Value(set.Params[1]) {
-				stored = field
+			if st, ok := in.(*ssa.Store); ok && len(set.Params) == 2 && st.Val == ssa.Value(set.Params[1]) {
+				if ap := an.AP(st.Addr); strings.HasPrefix(ap, "recv.") {
+					stored = strings.TrimPrefix(ap, "recv.") // possibly a path into a nested struct value
+				}
 			}
 		})
 		good := stored != ""
